@@ -5,10 +5,11 @@ ROOT = os.path.dirname(os.path.dirname(os.path.abspath(__file__)))
 
 # id -> (technique, level text, level note, design ref)
 CHECKS = {}
-SUFFIX = (" Fourth and fifth wave (2026-09-26): the workload dimensions added for this check after 87 more independently seeded"
-          " changes and an audit of the unchanged tree are listed in DESIGN.md section 3 under 'Fourth wave' / 'Fifth wave'; the"
-          " 'after N fixes' count and the call counts above predate them - known_findings.txt lists every repair (153, each with the"
-          " property it was found under) and the seven open findings, evidence/<id>.json has the counts of the last run.")
+SUFFIX = (" Fourth to sixth wave (2026-09-26 .. 2026-09-28): the workload dimensions added for this check after 163 more independently"
+          " seeded changes and an audit of the unchanged tree are listed in DESIGN.md section 3 under 'Fourth wave' / 'Fifth wave' /"
+          " 'Sixth wave'; the 'after N fixes' count and the call counts above predate them - known_findings.txt lists every repair"
+          " (157, each with the property it was found under) and the ten open findings, evidence/<id>.json has the counts of the"
+          " last run.")
 def chk(id, technique, text, note):
     CHECKS[id] = dict(technique=technique, text=text + SUFFIX, note=note)
 
